@@ -1557,7 +1557,12 @@ def deku_prim(E, st, frame, b, t, c, args):
         val = mk_int(-(1 << (nb - 1)) if nb > 0 else 0, (1 << (nb - 1)) - 1 if nb > 0 else 0)
     else:
         val = mk_int(0, (1 << nb) - 1)
-    if sid is not None and pos is not None and pos[1] == pos[2] and n[1] == n[2]:
+    if E.bits_override is not None and pos is not None and pos[1] == pos[2] and n[1] == n[2]:
+        forced = E.bits_override(pos[1], n[1])
+        if forced is not None:
+            # the analysis fixes this part of the stream (slice on the bits of one field)
+            val = const_int(forced)
+    if sid is not None and pos is not None and pos[1] == pos[2] and n[1] == n[2] and not is_const(val):
         term = T('bits', sid, pos[1], n[1], rs)
         # the top n bits of a byte whose own term is known (the stream's source is a buffer with
         # element-wise content): the value is that byte shifted, so that it correlates with direct
@@ -1567,7 +1572,7 @@ def deku_prim(E, st, frame, b, t, c, args):
             if bt is not None:
                 term = bt if n[1] == 8 else T('Shr', bt, T('c', 8 - n[1]))
     else:
-        term = T('o', site)
+        term = T('o', site) if not is_const(val) else val[4]
     val = E.reg((val[0], val[1], val[2], val[3], term))
     out = []
     s_err = st.copy()
